@@ -15,7 +15,8 @@ class Prop:
     vo_check = ["theories/Cookie/Check.vo"]
     vo_props = ["theories/Props/C10.vo"]
     k_names = ["cosim(device datagrams, per-peer state writes, cookie-secret epochs == Cookie.Model.step)",
-               "natural-load(saturated handshake queue without hook: only cookie replies, bound to source, round trip; under-load period lasts 1 s after the LAST detection)"]
+               "natural-load(saturated handshake queue without hook: only cookie replies, bound to source, round trip; under-load period lasts 1 s after the LAST detection; ordinary behaviour again 1.3 s after the episode)",
+               "loopback(real conn.StdNetBind on 127.0.0.1/::1 under forced load: cookie = Mac(secret, source ip AND port); cookie of port A refused from port B, accepted from A)"]
     rule = ("scenarios from one PRNG against a real device (sim bind/tun, remote side = ref): every message type and unknown "
             "type words (incl. otherwise well-formed messages of all four types with non-zero reserved bytes, MACs over the bytes as sent), sizes around 32/64/92/148, MAC1 valid/garbage/for another key/over an altered body, MAC2 zero/garbage/"
             "valid/expired (secret shifted 121 s+)/issued to another address/another port/under the previous secret, payload "
@@ -54,8 +55,10 @@ class Prop:
         files, cases = self._run_go(["-seed", str(seed), "-n", str(n), "-shards", str(shards), "-out", self.dir,
                                      "-corpus", os.path.join(vlib.ROOT, "corpus", "C10")])
         nat = [c["natural"] for c in cases if c.get("natural")]
+        lb = [c["loopback"] for c in cases if c.get("loopback")]
         self.extra_coverage = {"natural_load": nat[0] if nat else None,
-                               "discarded_slow_scenarios": sum(1 for c in cases if not c.get("steps") and not c.get("natural")),
+                               "loopback_stdnetbind": lb[0] if lb else None,
+                               "discarded_slow_scenarios": sum(1 for c in cases if not c.get("steps") and not c.get("natural") and not c.get("loopback")),
                                "slow_retries": sum(c.get("slow", 0) for c in cases)}
         return files, cases
 
@@ -69,6 +72,9 @@ class Prop:
             nat = c.get("natural")
             if nat and nat.get("status") == "violation":
                 res.append({"case": i, "kind": 2, "pos": 0, "natural": nat.get("detail", "")[:400]})
+            lb = c.get("loopback")
+            if lb and lb.get("status") == "violation":
+                res.append({"case": i, "kind": 2, "pos": 0, "loopback": lb.get("detail", "")[:400]})
         return res
 
     def failures(self, outputs, files, cases):
@@ -85,7 +91,7 @@ class Prop:
         d = os.path.join(self.dir, "rerun")
         os.makedirs(d, exist_ok=True)
         inp = os.path.join(d, "in.json")
-        json.dump([{"gen": c.get("gen", ""), "plan": c.get("plan") or [], "natural": c.get("natural")} for c in cases], open(inp, "w"))
+        json.dump([{"gen": c.get("gen", ""), "plan": c.get("plan") or [], "natural": c.get("natural"), "loopback": c.get("loopback")} for c in cases], open(inp, "w"))
         exe = vlib.build_go("c10")
         rc, o = vlib.sh([exe, "-replay", inp, "-out", d], cwd=vlib.ROOT, timeout=3000)
         if rc != 0:
@@ -109,6 +115,8 @@ class Prop:
     def signature(self, case, f):
         if case.get("natural") or f.get("natural"):
             return "natural-load"
+        if case.get("loopback") or f.get("loopback"):
+            return "loopback-stdnetbind"
         steps = case.get("steps") or []
         pos = f.get("pos", 0)
         if pos >= len(steps):
@@ -125,11 +133,15 @@ class Prop:
     def nontrivial(self, c):
         if c.get("natural"):
             return c["natural"].get("status") == "ok"
+        if c.get("loopback"):
+            return c["loopback"].get("status") == "ok"
         return any((s.get("outs") or s.get("chg")) for s in (c.get("steps") or []))
 
     def sample(self, c):
         if c.get("natural"):
             return {"gen": c["gen"], "natural": c["natural"]}
+        if c.get("loopback"):
+            return {"gen": c["gen"], "loopback": c["loopback"]}
         return {"gen": c.get("gen"), "steps": [{"event": s["event"][:200], "observed": s.get("outs"), "changed_peers": s.get("chg")}
                                                for s in (c.get("steps") or [])[:6]], "length": len(c.get("steps") or [])}
 
@@ -144,7 +156,7 @@ def replay(path):
     case = obj.get("input") or obj
     fs = p.run_cases([case])
     r = p.last_rerun[0]
-    print(json.dumps({"failures": fs, "natural": r.get("natural"),
+    print(json.dumps({"failures": fs, "natural": r.get("natural"), "loopback": r.get("loopback"),
                       "observed": [{"event": s["event"], "outs": s.get("outs"), "chg": s.get("chg")} for s in (r.get("steps") or [])]})[:6000])
     if any(f["kind"] == 2 for f in fs):
         print("VIOLATION property=C10 replay=%s" % path)
